@@ -246,5 +246,46 @@ PROPS["C07"] = {
     "shrink": False,
 }
 
+_SOCK_TB = [KERNEL, AXIOMS, HARNESS,
+            "server subprocess harness/cmd/sysd (real service / attachment servers with recording callbacks) and the TCP client helpers harness/internal/sock",
+            "the transition system lean/JT/Model/Act.lean is a hand abstraction of goroutines, Go channels (blocking when full, only stopChan is ever closed), sync.Once and the single session-manager goroutine; it is tied to the code by executing scripted scenarios on both (outcomes must be equal) — schedules of the real goroutines are sampled, not enumerated",
+            "wall-clock bounds (timeout plus slack) are tested, not proved"]
+
+PROPS["C12"] = {
+    "id": "C12",
+    "lean_modules": ["JT.Props.C12"],
+    "functional_ops": [],
+    "rule": ("scripted scenarios against a real server subprocess over sockets, every action awaited: terminal joins, 1..8 SendActiveMessage calls (0x8103) with short (150 ms) or long (8 s) timeouts, at most 3 outstanding, the terminal answers them in any order "
+             "(0x0001 echoing the platform serial it read from the command frame), sends responses echoing a serial nobody waits for, duplicate responses, heartbeats in between, 450 ms pauses (short timeouts fire); every scenario ends with the terminal going away. "
+             "11 fixed scripts + random well-formed scripts. Result per call: resp / timeout / fail / noexist. non-trivial = at least one call."),
+    "technique": "Lean 4 proof of inductive invariants of a goroutine/channel transition system (all interleavings, arbitrary terminal behaviour) + scripted socket scenarios executed on the real server and on the model",
+    "level_text": ("Machine-checked Lean 4 theorems over a transition system of callers, session manager, writer, timeout goroutines, reader teardown and a terminal that may echo ANY serial at any time, for all interleavings: a call's result, once delivered, is never replaced (exactly one result); "
+                   "a response result carries exactly the serial that very request was stamped with; two requests never share a serial; a recorded request sits under its own serial; a command for an offline key can only be answered not-exist. "
+                   "The same scripts are run on the real server over sockets and through the model (outcomes compared), and the harness checks directly that each caller got the response echoing its own command's serial, that short timeouts return in time and that ordinary traffic is still answered. "
+                   "Partial: the model abstracts the goroutines by hand and real schedules are sampled."),
+    "level_note": "Trusted: Lean kernel; hand abstraction of the goroutine structure (Model/Act.lean) tied by scenario correspondence; sysd/sock harness. Serial re-use within one timeout (65 536 commands) is outside the model.",
+    "trusted_base": _SOCK_TB,
+    "assumptions": ["a 16-bit platform serial is not re-used while its command is pending", "responses are 0x0001 general responses (the per-type serial extraction of 0x0104/0x0805/0x1205/0x1206 is exercised by C03/C07 parsers only)"],
+    "shrink": False,
+}
+
+PROPS["C13"] = {
+    "id": "C13",
+    "lean_modules": ["JT.Props.C13"],
+    "functional_ops": [],
+    "rule": ("the C12 script language plus `X` (the terminal closes) at any point: before any command, with 1..3 commands queued or outstanding, after timeouts, followed by new commands (offline key) and by a reconnect; 18 fixed scripts + random ones; "
+             "`actstress`: 2..6 terminals x 1..8 concurrent callers with 100..300 ms timeouts, terminals answering always / sometimes / never and closing or RESETTING after 0..250 ms: every call must return within 3 s, the server process must stay up and a new terminal must be served afterwards. "
+             "non-trivial = scenario with a disconnect or a stress run."),
+    "technique": "Lean 4 proof (same transition system as C12): no stranded caller at quiescence, nothing left behind a dead writer, writer never blocked; fault-injection socket scenarios on the real server + model correspondence",
+    "level_text": ("Machine-checked Lean 4 theorems, for all interleavings of the peer disconnecting, commands being queued/written, responses arriving and timeouts firing: in every reachable state in which the server has nothing left to do, every SendActiveMessage call made so far has returned; "
+                   "after the writer has exited nothing is queued for it or recorded by it and the key is unregistered (only stopChan is ever closed, so there is no send on a closed channel); the writer is never blocked on its own channels. "
+                   "The design proved is the one implemented by the D17/D18 repair. Scripted disconnect scenarios run on the real server and on the model (equal outcomes); randomized concurrent stress with closes and resets checks that the process survives and every call returns. "
+                   "Partial: 'within its timeout plus scheduling slack' is wall-clock and only tested; real goroutine schedules are sampled."),
+    "level_note": "Trusted: Lean kernel; hand abstraction of the goroutine structure tied by scenario correspondence; sysd/sock harness; timing slack constants (3 s).",
+    "trusted_base": _SOCK_TB,
+    "assumptions": ["liveness is stated as a safety property of quiescent states", "socket-write errors are modelled as an alternative outcome of the writer step"],
+    "shrink": False,
+}
+
 # properties that are not claimed, with the reason (anything not listed and not in PROPS gets a generic "not built yet")
 NOT_APPLICABLE = {}
